@@ -59,7 +59,7 @@ def main(tier):
         run.extra["generated"] = "models, keytabs, queries = " + (g.tags("COUNTS") or ["?"])[0]
         trace = os.path.join(wd, "trace.ndjson")
         vlib.run_harness(["c14", "-out", trace, "-images", os.path.join(wd, "images.ndjson"), "-lookups", os.path.join(wd, "lookups.ndjson"),
-                          "-queries", os.path.join(wd, "queries.ndjson")], timeout=3000)
+                          "-queries", os.path.join(wd, "queries.ndjson")], timeout=3000, ok_codes=(0, 3))   # 3: stopped after calls that never returned; the trace is a prefix
         lines = vlib.read_ndjson(trace)
         run.cov["evaluations"] = len(lines)
         bad = line_trace(run, wd, "TraceC14", len(lines), timeout=3400)
